@@ -618,15 +618,18 @@ def opLocation : OpKind → String
   | .mutation => "MUTATION"
   | .subscription => "SUBSCRIPTION"
 
+def occLocation : Occ → String
+  | .field .. => "FIELD"
+  | .spread .. => "FRAGMENT_SPREAD"
+  | .inline .. => "INLINE_FRAGMENT"
+
+def defLocation : Definition → String
+  | .op kind _ _ _ _ => opLocation (opKindOf kind)
+  | .frag .. => "FRAGMENT_DEFINITION"
+
 /-- Every directive list of the document with its location. -/
 def dirSites (S : Schema) (D : Document) : List (String × List Directive) :=
-  (D.map fun
-    | .op kind _ _ dirs _ => (opLocation (opKindOf kind), dirs)
-    | .frag _ _ _ _ dirs _ _ => ("FRAGMENT_DEFINITION", dirs)) ++
-  (selOccs S D).map fun
-    | .field _ _ _ _ _ dirs _ => ("FIELD", dirs)
-    | .spread _ _ _ dirs _ => ("FRAGMENT_SPREAD", dirs)
-    | .inline _ _ dirs _ => ("INLINE_FRAGMENT", dirs)
+  D.map (fun d => (defLocation d, defDirs d)) ++ (selOccs S D).map (fun o => (occLocation o, occDirs o))
 
 /-- §5.7.1 Directives Are Defined. -/
 def directivesDefined (S : Schema) (D : Document) : Bool :=
